@@ -50,6 +50,10 @@ pub static PASS_MASK: AtomicU64 = AtomicU64::new((1 << 5) | (1 << 30) | (1 << 42
 /// address of the exit futex the handle owner is (about to be) waiting on, and who
 pub static WAIT_ADDR: AtomicUsize = AtomicUsize::new(0);
 pub static WAIT_TID: AtomicU32 = AtomicU32::new(0);
+/// operations on the exit word logged for the current wait: an implementation that spins on the
+/// word must not flood the log (only the first WAIT_OPS_CAP operations of a wait are logged)
+pub static WAIT_OPS_LOGGED: AtomicU32 = AtomicU32::new(0);
+const WAIT_OPS_CAP: u32 = 48;
 /// log protocol points (off for huge batches)
 pub static LOG_POINTS: AtomicBool = AtomicBool::new(true);
 
@@ -73,6 +77,7 @@ pub fn on_point(id: u32, arg: usize) {
     if id == vt::JOIN_BEFORE_WAIT || id == vt::DROP_BEFORE_WAIT {
         WAIT_TID.store(tid, Ordering::SeqCst);
         WAIT_ADDR.store(arg, Ordering::SeqCst);
+        WAIT_OPS_LOGGED.store(0, Ordering::SeqCst);
     }
     if LOG_POINTS.load(Ordering::Relaxed) {
         let e = Ev::new("pt").u("id", id as u64).u("arg", arg as u64);
@@ -143,7 +148,7 @@ fn hk_before(op: &verif::Op) -> verif::Directive {
         return verif::Directive::Pass;
     }
     if matches!(op.kind, verif::OpKind::Load) {
-        if LOG_POINTS.load(Ordering::Relaxed) {
+        if LOG_POINTS.load(Ordering::Relaxed) && WAIT_OPS_LOGGED.load(Ordering::Relaxed) < WAIT_OPS_CAP {
             Ev::new("pt").u("id", X_LOAD as u64).u("arg", op.addr as u64).s("ord", ord_name(op.success)).emit();
         }
         maybe_block(sys::gettid(), X_LOAD, op.addr);
@@ -152,6 +157,10 @@ fn hk_before(op: &verif::Op) -> verif::Directive {
 }
 
 fn hk_after(op: &verif::Op, old: u32, _ok: bool) {
+    // always log the load that ends the wait (reads a value other than 1), cap the others
+    if WAIT_OPS_LOGGED.fetch_add(1, Ordering::Relaxed) >= WAIT_OPS_CAP && old == 1 {
+        return;
+    }
     if matches!(op.kind, verif::OpKind::Load) {
         Ev::new("xload").u("val", old as u64).s("ord", ord_name(op.success)).u("addr", op.addr as u64).emit();
     } else {
@@ -161,7 +170,7 @@ fn hk_after(op: &verif::Op, old: u32, _ok: bool) {
 
 fn hk_futex_wait(word: &core::sync::atomic::AtomicU32, val: u32) -> Option<i32> {
     let addr = word.as_ptr() as usize;
-    if is_exit_word(addr) {
+    if is_exit_word(addr) && WAIT_OPS_LOGGED.load(Ordering::Relaxed) < WAIT_OPS_CAP {
         Ev::new("xwait").u("val", val as u64).u("cur", word.load(Ordering::Relaxed) as u64).u("addr", addr as u64).emit();
         maybe_block(sys::gettid(), X_WAIT, addr);
     }
